@@ -18,20 +18,57 @@ def _is_meta(n: ast.AST) -> Optional[str]:
     return None
 
 
-def _match(p: ast.AST, n: ast.AST, b: Dict[str, str]) -> bool:
+class _Ctx:
+    """Matching context: `resolver(name_node, at_stmt)` returns (defining expression, defining statement) for a local with a single
+    stable definition, or None.  `at` is the statement in whose context the code node is evaluated."""
+
+    def __init__(self, resolver=None, at=None, depth=0):
+        self.resolver = resolver
+        self.at = at
+        self.depth = depth
+
+
+def _match(p: ast.AST, n: ast.AST, b: Dict[str, str], cx: Optional[_Ctx] = None) -> bool:
     if isinstance(p, ast.Name) and p.id == "__":
         return isinstance(n, ast.expr)
     m = _is_meta(p)
     if m is not None:
-        if not isinstance(n, (ast.Name, ast.Attribute)):
+        if not isinstance(n, ast.expr):
             return False
         t = unparse(n)
         if m in b:
-            return b[m] == t
+            if b[m] == t:
+                return True
+            return _resolved(p, n, b, cx)
         b[m] = t
         return True
     if type(p) is not type(n):
+        return _resolved(p, n, b, cx)
+    saved = dict(b)
+    if _match_fields(p, n, b, cx):
+        return True
+    b.clear()
+    b.update(saved)
+    return _resolved(p, n, b, cx)
+
+
+def _resolved(p: ast.AST, n: ast.AST, b: Dict[str, str], cx: Optional[_Ctx]) -> bool:
+    """The code has a local where the pattern spells the expression out: match against the local's definition."""
+    if cx is None or cx.resolver is None or cx.depth > 6 or not isinstance(n, ast.Name) or not isinstance(getattr(n, "ctx", None), ast.Load):
         return False
+    r = cx.resolver(n, cx.at)
+    if r is None:
+        return False
+    expr, st = r
+    saved = dict(b)
+    if _match(p, expr, b, _Ctx(cx.resolver, st, cx.depth + 1)):
+        return True
+    b.clear()
+    b.update(saved)
+    return False
+
+
+def _match_fields(p: ast.AST, n: ast.AST, b: Dict[str, str], cx: Optional[_Ctx]) -> bool:
     for field, pv in ast.iter_fields(p):
         if field in ("ctx", "lineno", "col_offset", "end_lineno", "end_col_offset", "type_comment", "kind"):
             continue
@@ -39,14 +76,22 @@ def _match(p: ast.AST, n: ast.AST, b: Dict[str, str]) -> bool:
         if isinstance(pv, list):
             if not isinstance(nv, list) or len(pv) != len(nv):
                 return False
+            if field == "keywords":  # keyword arguments match by name, in any order
+                byname = {k.arg: k for k in nv}
+                if len(byname) != len(nv) or {k.arg for k in pv} != set(byname):
+                    return False
+                for k in pv:
+                    if not _match(k.value, byname[k.arg].value, b, cx):
+                        return False
+                continue
             for a, c in zip(pv, nv):
                 if isinstance(a, ast.AST):
-                    if not _match(a, c, b):
+                    if not _match(a, c, b, cx):
                         return False
                 elif a != c:
                     return False
         elif isinstance(pv, ast.AST):
-            if not isinstance(nv, ast.AST) or not _match(pv, nv, b):
+            if not isinstance(nv, ast.AST) or not _match(pv, nv, b, cx):
                 return False
         else:
             if pv != nv:
@@ -62,16 +107,16 @@ def parse_pattern(src: str) -> ast.AST:
     return st
 
 
-def match(pattern: str, node: ast.AST, bindings: Optional[Dict[str, str]] = None) -> Optional[Dict[str, str]]:
+def match(pattern: str, node: ast.AST, bindings: Optional[Dict[str, str]] = None, resolver=None, at=None) -> Optional[Dict[str, str]]:
     p = parse_pattern(pattern)
     b = dict(bindings or {})
     # allow a statement pattern that is an expression to match Expr statements / expressions alike
     if isinstance(p, ast.expr) and isinstance(node, ast.Expr):
         node = node.value
-    return b if _match(p, node, b) else None
+    return b if _match(p, node, b, _Ctx(resolver, at)) else None
 
 
-def find(pattern: str, root: ast.AST, bindings: Optional[Dict[str, str]] = None, nested: bool = False) -> List[Dict[str, str]]:
+def find(pattern: str, root: ast.AST, bindings: Optional[Dict[str, str]] = None, nested: bool = False, resolver=None, stmt_of=None) -> List[Dict[str, str]]:
     """All bindings under which some statement/expression inside `root` matches the pattern."""
     p = parse_pattern(pattern)
     out = []
@@ -82,11 +127,123 @@ def find(pattern: str, root: ast.AST, bindings: Optional[Dict[str, str]] = None,
         if isinstance(p, ast.expr) and not isinstance(n, ast.expr):
             continue
         b = dict(bindings or {})
-        if _match(p, n, b):
+        at = n if isinstance(n, ast.stmt) else (stmt_of(n) if stmt_of else None)
+        if _match(p, n, b, _Ctx(resolver, at)):
             b["@node"] = n  # type: ignore
             out.append(b)
     return out
 
 
-def has(pattern: str, root: ast.AST, bindings: Optional[Dict[str, str]] = None, nested: bool = False) -> bool:
-    return bool(find(pattern, root, bindings, nested))
+def has(pattern: str, root: ast.AST, bindings: Optional[Dict[str, str]] = None, nested: bool = False, resolver=None, stmt_of=None) -> bool:
+    return bool(find(pattern, root, bindings, nested, resolver, stmt_of))
+
+
+class PatCtx:
+    """Threaded matching of several patterns inside one function: a metavariable bound by one pattern keeps its binding in
+    the following ones, so `_S_ = remove_duplicates(data_series)` followed by `_T_ = _S_.index[1:] - _S_.index[:-1]` checks
+    that the *same* local flows on, whatever it is called."""
+
+    def __init__(self, root: ast.AST, nested: bool = False, bindings: Optional[Dict[str, str]] = None, resolve: bool = True):
+        self.root = root
+        self.nested = nested
+        self.b: Dict[str, str] = dict(bindings or {})
+        self.last: Optional[ast.AST] = None
+        self.resolver = None
+        self.stmt_of = None
+        if resolve and isinstance(root, (ast.FunctionDef, ast.AsyncFunctionDef)):
+            self.resolver, self.stmt_of = make_resolver(root)
+
+    def find(self, pattern: str) -> List[Dict[str, str]]:
+        return find(pattern, self.root, self.b, self.nested, self.resolver, self.stmt_of)
+
+    def has(self, pattern: str, bind: bool = True) -> bool:
+        ms = self.find(pattern)
+        if not ms:
+            return False
+        if bind:
+            m = ms[0]
+            self.last = m.pop("@node", None)  # type: ignore
+            self.b.update({k: v for k, v in m.items() if k != "@node"})
+        return True
+
+    def all(self, *patterns: str) -> bool:
+        ok = True
+        for p in patterns:
+            ok = self.has(p) and ok
+        return ok
+
+    def name(self, meta: str, default: str = "?") -> str:
+        return self.b.get(meta, default)
+
+
+def make_resolver(fn: ast.AST):
+    """resolver(name, at) for single-definition locals of `fn` whose defining expression means the same at the use:
+    the local has exactly one definition in the function (a plain `name = expr`), that definition is the only one reaching
+    `at`, and every name read by `expr` has the same reaching definitions at the definition and at `at`."""
+    from .cfg import CFG
+    from .dataflow import ReachingDefs
+    cfg = CFG(fn)
+    rd = ReachingDefs(fn, cfg)
+    parent: Dict[int, ast.AST] = {}
+    for x in ast.walk(fn):
+        for c in ast.iter_child_nodes(x):
+            parent[id(c)] = x
+    stmts = {id(s) for s in cfg.stmts()}
+
+    def stmt_of(n: ast.AST):
+        cur = n
+        while cur is not None and id(cur) not in stmts:
+            cur = parent.get(id(cur))
+        return cur
+
+    ndefs: Dict[str, int] = {}
+    for x in ast.walk(fn):
+        if isinstance(x, ast.Name) and isinstance(x.ctx, (ast.Store, ast.Del)):
+            ndefs[x.id] = ndefs.get(x.id, 0) + 1
+        elif isinstance(x, ast.arg):
+            ndefs[x.arg] = ndefs.get(x.arg, 0) + 1
+
+    def resolver(name: ast.Name, at):
+        if at is None or ndefs.get(name.id, 0) != 1:
+            return None
+        defs = rd.reaching(at, name.id)
+        if len(defs) != 1 or defs[0].kind != "assign":
+            return None
+        v, ds = rd.value_of(defs[0]), rd.def_stmt(defs[0])
+        if v is None or ds is None:
+            return None
+        for x in ast.walk(v):
+            if isinstance(x, ast.Name) and isinstance(x.ctx, ast.Load):
+                a = {(d.stmt_id, d.kind) for d in rd.reaching(ds, x.id)}
+                c = {(d.stmt_id, d.kind) for d in rd.reaching(at, x.id)}
+                if a != c:
+                    return None
+        return v, ds
+
+    return resolver, stmt_of
+
+
+class Expander:
+    """Rewrites an expression with every single-definition local replaced by its defining expression (transitively), so that
+    `c = sub.coefficients; k = c.model_key; f(k)` reads `f(sub.coefficients.model_key)` whatever the locals are called."""
+
+    def __init__(self, fn: ast.AST):
+        self.resolver, self.stmt_of = make_resolver(fn)
+
+    def expand(self, e: ast.AST, at: Optional[ast.AST] = None, depth: int = 6) -> ast.AST:
+        import copy
+        at = at if at is not None else self.stmt_of(e)
+        ex = self
+
+        class T(ast.NodeTransformer):
+            def visit_Name(self, n: ast.Name):
+                if isinstance(n.ctx, ast.Load) and depth > 0:
+                    r = ex.resolver(n, at)
+                    if r is not None:
+                        return ex.expand(copy.deepcopy(r[0]), r[1], depth - 1)
+                return n
+
+        return T().visit(copy.deepcopy(e))
+
+    def text(self, e: ast.AST, at: Optional[ast.AST] = None) -> str:
+        return unparse(self.expand(e, at))
